@@ -1870,6 +1870,16 @@ SEXP_API void sexp_maybe_unblock_port (sexp ctx, sexp in);
 #define SEXP_COPY_FREEP   SEXP_ONE
 #define SEXP_COPY_LOADP   SEXP_TWO
 
+#if CHIBI_VERIF
+/* verification hooks (off unless built with -DCHIBI_VERIF=1): see /verif/DESIGN.md section 4 */
+SEXP_API void sexp_verif_emit (const char *fmt, ...);
+SEXP_API int  sexp_verif_tracing (void);
+SEXP_API void sexp_verif_arm (int from_vm);
+SEXP_API void sexp_verif_gc_schedule (const char *spec);
+SEXP_API long sexp_verif_alloc_count (void);
+SEXP_API long sexp_verif_next_slice (long dflt);
+SEXP_API int  sexp_verif_thread_id (sexp thread);
+#endif
 #if ! SEXP_USE_BOEHM && ! SEXP_USE_MALLOC
 SEXP_API void sexp_gc_init (void);
 SEXP_API int sexp_grow_heap (sexp ctx, size_t size, size_t chunk_size);
